@@ -954,22 +954,29 @@ class PDSLabelEncoder(ODLEncoder):
 
         if grp_count > 0 and obj_count < 1:
             if self.convert_group_to_object:
-                for k, v in module.items():
+                # Work on a copy of the top level, so that the caller's
+                # module is not altered (item assignment by key would also
+                # drop any later items that share the key).
+                items = list(module.items())
+                idx = None
+                for i, (k, v) in enumerate(items):
                     # First try to convert any GROUPs that would not
                     # be valid PDS GROUPs.
                     if isinstance(v, self.grpcls) and not self.is_PDSgroup(v):
-                        module[k] = self.objcls(v)
+                        idx = i
                         break
                 else:
                     # Then just convert the first GROUP
-                    for k, v in module.items():
+                    for i, (k, v) in enumerate(items):
                         if isinstance(v, self.grpcls):
-                            module[k] = self.objcls(v)
+                            idx = i
                             break
                     else:
                         raise ValueError(
                             "Couldn't convert any of the GROUPs " "to OBJECTs."
                         )
+                items[idx] = (items[idx][0], self.objcls(items[idx][1]))
+                module = type(module)(items)
             else:
                 raise ValueError(
                     "This module has a GROUP element, but no "
